@@ -10,6 +10,14 @@ Mathlib-level criteria (for EVERY finite field K and every polynomial — no bou
                               the prime-divisor test of `order` / `is_prim_root` / the driver's `checkOrder`;
   * `factor_list_certificate` the certificate checked on every `CZfactor` output decides "no factor lost or invented,
                               multiplicities exact".
+List level, for the coefficient record `fieldOps K` of any Mathlib field (refinement in Lemmas/PolyFactorRefine.lean):
+  * `bruteIrreducible_correct` (+ `_zmod`), `dividesB_correct`, `associatedB_correct`
+                              the exponential oracle of the driver decides `Irreducible (toPoly P)`;
+  * `factor_list_checker_sound`, `factor_list_checker_decides`, `sqrfree_certificate`, `sqrfree_checker_sound`
+                              an accepted `CZfactor` / `sqrfree` output has the certified meaning;
+  * `is_irreducible_model_correct`
+                              the model of the repaired `is_irreducible` (gcd, powmod, diff loops) decides irreducibility;
+  * `sqrfree_partial`         `sqrfree` on separable inputs (PARTIAL, see its comment), `sqrfree_charp_counterexample`.
 Model-level (all inputs, all enumeration orders, all random streams):
   * `found_irreducible_has_degree`, `found_ixe_irreducible`, `found_prim_root`
                               what the searches of givpoly1proot.inl return.
@@ -17,6 +25,9 @@ Model-level (all inputs, all enumeration orders, all random streams):
 import GivaroModel.Model.PolyFactor
 import GivaroModel.Lemmas.PolyFactorLemmas
 import GivaroModel.Spec.PolyFactorSpec
+import GivaroModel.Lemmas.PolyFactorRefine
+import Mathlib.Algebra.Squarefree.Basic
+import Mathlib.Data.ZMod.Basic
 import Mathlib.FieldTheory.Finite.Extension
 import Mathlib.FieldTheory.Perfect
 import Mathlib.Algebra.Polynomial.FieldDivision
@@ -248,6 +259,279 @@ theorem found_ixe_irreducible {α : Type} [DecidableEq α] (F : FOps α) (hone :
 theorem found_prim_root {α : Type} [DecidableEq α] (F : FOps α) (q : Nat) (Fm : Poly α) (cands : List (Poly α)) (R : Poly α)
     (h : givePrimRoot F q Fm cands = some R) : R ∈ cands ∧ isPrimRoot F q R Fm = true :=
   firstThat_spec _ _ _ h
+
+/-! ### the oracle and the checkers of the driver (list level ↔ Mathlib), for the coefficient record `fieldOps K` of ANY field
+
+`fieldOps K` is the record whose six entries are the field's own `0, 1, +, -, *, ⁻¹`; `elems` must list every element. -/
+section ListLevel
+open Givaro.Lemmas.PolyFactor Givaro.Spec.PolyFactor
+
+/-- The exponential oracle (`degree ≥ 1` and no monic divisor of degree `1 … ⌊n/2⌋`, by long division in the list
+    arithmetic) decides Mathlib's `Irreducible` — every list (normalised or not), every field, no size bound. -/
+theorem bruteIrreducible_correct {K : Type} [Field K] [DecidableEq K] (elems : List K) (hall : ∀ x : K, x ∈ elems)
+    (P : Poly K) : bruteIrreducible (fieldOps K) elems P = true ↔ Irreducible (toPoly P) :=
+  bruteIrreducible_iff elems hall P
+
+/-- prime fields: `ZMod p` with the residues enumerated as `0, 1, …, p-1` (the driver's order) -/
+theorem bruteIrreducible_correct_zmod (p : ℕ) [Fact p.Prime] (P : Poly (ZMod p)) :
+    bruteIrreducible (fieldOps (ZMod p)) ((List.range p).map (fun (n : ℕ) => (n : ZMod p))) P = true ↔ Irreducible (toPoly P) := by
+  haveI : NeZero p := ⟨(Fact.out : p.Prime).ne_zero⟩
+  apply bruteIrreducible_iff
+  intro x
+  exact List.mem_map.2 ⟨x.val, List.mem_range.2 (ZMod.val_lt x), ZMod.natCast_zmod_val x⟩
+
+/-- the divisibility test of the oracle -/
+theorem dividesB_correct {K : Type} [Field K] [DecidableEq K] (g P : Poly K) (hg : toPoly g ≠ 0) :
+    dividesB (fieldOps K) g P = true ↔ toPoly g ∣ toPoly P := dividesB_iff g P hg
+
+/-- the associate test of the checkers -/
+theorem associatedB_correct {K : Type} [Field K] [DecidableEq K] (a b : Poly K) :
+    associatedB (fieldOps K) a b = true ↔ toPoly a ≠ 0 ∧ toPoly b ≠ 0 ∧ Associated (toPoly a) (toPoly b) :=
+  associatedB_iff a b
+
+/-- `checkFactorList` = true yields exactly the hypotheses of `factor_list_certificate` for the denoted polynomials
+    (`irr` any decider that is sound for `Irreducible`, e.g. the oracle above). -/
+theorem factor_list_checker_sound {K : Type} [Field K] [DecidableEq K] (irr : Poly K → Bool)
+    (hirr : ∀ g, irr g = true → Irreducible (toPoly g)) (P : Poly K) (L : List (Poly K × ℕ))
+    (h : checkFactorList (fieldOps K) irr P L = true) :
+    toPoly P ≠ 0 ∧ ∃ c : K, c ≠ 0 ∧
+      (∀ ge ∈ L.map (fun ge => (toPoly ge.1, ge.2)), Irreducible ge.1 ∧ 1 ≤ ge.2) ∧
+      (L.map (fun ge => (toPoly ge.1, ge.2))).Pairwise (fun a b => ¬ Associated a.1 b.1) ∧
+      ((L.map (fun ge => (toPoly ge.1, ge.2))).map (fun ge => ge.1 ^ ge.2)).prod = C c * toPoly P := by
+  unfold checkFactorList at h
+  simp only [Bool.and_eq_true, decide_eq_true_eq, List.all_eq_true, ne_eq] at h
+  obtain ⟨⟨⟨hP, hall⟩, hpw⟩, hass⟩ := h
+  have hP0 : toPoly P ≠ 0 := fun h0 => hP ((norm_eq_nil_iff P).2 h0)
+  obtain ⟨-, -, u, hu⟩ := (associatedB_iff _ _).1 hass
+  obtain ⟨r, hr, hru⟩ := Polynomial.isUnit_iff.1 u.isUnit
+  have hr0 : r ≠ 0 := hr.ne_zero
+  refine ⟨hP0, r⁻¹, inv_ne_zero hr0, ?_, ?_, ?_⟩
+  · intro ge hge
+    obtain ⟨ge', hge', rfl⟩ := List.mem_map.1 hge
+    exact ⟨hirr _ (hall ge' hge').1, (hall ge' hge').2⟩
+  · rw [List.pairwise_map]
+    rw [pairwiseB_iff] at hpw
+    refine List.Pairwise.imp_of_mem ?_ hpw
+    intro a b ha hb hab hAss
+    have h1 := (hirr _ (hall a ha).1).ne_zero
+    have h2 := (hirr _ (hall b hb).1).ne_zero
+    have := (associatedB_iff a.1 b.1).2 ⟨h1, h2, hAss⟩
+    rw [this] at hab
+    exact absurd hab (by decide)
+  · rw [List.map_map]
+    have h1 := toPoly_prodPow L
+    have h2 : (L.map ((fun ge : K[X] × ℕ => ge.1 ^ ge.2) ∘ fun ge => (toPoly ge.1, ge.2))) =
+        L.map (fun ge => toPoly ge.1 ^ ge.2) := rfl
+    rw [h2, ← h1, ← hu, ← hru]
+    rw [mul_comm (toPoly (prodPow (fieldOps K) L)) (C r), ← mul_assoc, ← C_mul, inv_mul_cancel₀ hr0, C_1, one_mul]
+
+/-- what an accepted `CZfactor` output means: no irreducible factor of the input is lost, none is invented, every
+    returned multiplicity is the exact multiplicity (statement about the denoted polynomials). -/
+theorem factor_list_checker_decides {K : Type} [Field K] [DecidableEq K] (irr : Poly K → Bool)
+    (hirr : ∀ g, irr g = true → Irreducible (toPoly g)) (P : Poly K) (L : List (Poly K × ℕ))
+    (h : checkFactorList (fieldOps K) irr P L = true) :
+    (∀ f, Irreducible f → f ∣ toPoly P → ∃ ge ∈ L, Associated f (toPoly ge.1) ∧ 1 ≤ ge.2) ∧
+    (∀ ge ∈ L, Irreducible (toPoly ge.1) ∧ toPoly ge.1 ^ ge.2 ∣ toPoly P ∧ ¬ toPoly ge.1 ^ (ge.2 + 1) ∣ toPoly P) := by
+  obtain ⟨-, c, hc, h1, h2, h3⟩ := factor_list_checker_sound irr hirr P L h
+  obtain ⟨k1, k2⟩ := factor_list_certificate (toPoly P) _ c hc (fun ge hge => (h1 ge hge).1) h2 h3
+  constructor
+  · intro f hf hfP
+    obtain ⟨ge, hge, ha, hb⟩ := k1 f hf hfP
+    obtain ⟨ge', hge', rfl⟩ := List.mem_map.1 hge
+    exact ⟨ge', hge', ha, hb⟩
+  · intro ge hge
+    have hm : (toPoly ge.1, ge.2) ∈ L.map (fun ge => (toPoly ge.1, ge.2)) := List.mem_map.2 ⟨ge, hge, rfl⟩
+    have h4 := k2 _ hm
+    have h5 := (h1 _ hm).1
+    dsimp only at h4 h5
+    exact ⟨h5, h4.1, h4.2⟩
+
+/-- **The model of the (repaired) `is_irreducible` decides irreducibility**: for every finite field `K` (coefficient record
+    `fieldOps K`, `MOD = |K|`) and every coefficient list `P` — normalised or not, zero and constants included — the
+    transcription of the C++ (`gcd(P',P)`, then `W ← W^q mod P`, `gcd(W - X, P)` for `⌊deg/2⌋` rounds over the model of
+    `Poly1Dom::gcd`/`powmod`/`diff`) returns true exactly when the denoted polynomial is irreducible. -/
+theorem is_irreducible_model_correct {K : Type} [Field K] [DecidableEq K] [Finite K] (P : Poly K) :
+    isIrreducible (fieldOps K) (Nat.card K) P = true ↔ Irreducible (toPoly P) := by
+  unfold isIrreducible
+  by_cases hdeg : Givaro.Model.PolyFactor.degree (fieldOps K) P ≤ 0
+  · simp only [hdeg, if_true]
+    constructor
+    · intro h; exact absurd h (by decide)
+    · intro hirr
+      exfalso
+      have hpos := hirr.natDegree_pos
+      have := (degree_pos_iff P).2 hpos
+      omega
+  · simp only [hdeg, if_false]
+    have hpos : 0 < (toPoly P).natDegree := (degree_pos_iff P).1 (by omega)
+    have hP0 : toPoly P ≠ 0 := by rintro h; rw [h] at hpos; simp at hpos
+    have hd := pgcd_degree_pos_iff (diff (fieldOps K) P) P (Or.inr hP0)
+    rw [toPoly_diff] at hd
+    rw [ddf_test_correct (toPoly P) hpos]
+    split
+    · next h =>
+      have hnc := hd.1 h
+      constructor
+      · intro h; exact absurd h (by decide)
+      · rintro ⟨hc, -⟩; exact absurd hc.symm hnc
+    · next h =>
+      have hc : IsCoprime (derivative (toPoly P)) (toPoly P) := by
+        by_contra hnc; exact h (hd.2 hnc)
+      have hn : (Givaro.Model.PolyFactor.degree (fieldOps K) P).toNat = (toPoly P).natDegree := by
+        rw [degree_model, if_neg hP0]; simp
+      rw [hn, irrLoop_spec (Nat.card K) P hP0 _ 0 _ (by rw [toPoly_polX]; simp)]
+      constructor
+      · intro h; exact ⟨hc.symm, fun i h1 h2 => h i (by omega) (by omega)⟩
+      · rintro ⟨-, h⟩ j h1 h2; exact h j (by omega) (by omega)
+
+/-- `sqrfree` on the inputs where Yun's first test already decides: a separable (= square-free over a perfect field,
+    all multiplicities 1) non-zero input is returned as the single part `P / lc(P)` with exponent 1.
+    PARTIAL: the full statement (every input whose multiplicities are all `< p` is decomposed correctly — the part of
+    Yun's loop that works in characteristic p) is not proved; the statement for all inputs is false
+    (`sqrfree_charp_counterexample` below). -/
+theorem sqrfree_partial {K : Type} [Field K] [DecidableEq K] (Nfact : ℕ) (hN : 1 ≤ Nfact) (P : Poly K)
+    (hP : toPoly P ≠ 0) (hsep : (toPoly P).Separable) :
+    ∃ A, sqrfree (fieldOps K) Nfact P = [A] ∧ toPoly A = C (toPoly P).leadingCoeff⁻¹ * toPoly P := by
+  have hlc : (toPoly P).leadingCoeff⁻¹ ≠ 0 := inv_ne_zero (leadingCoeff_ne_zero.2 hP)
+  have hA : toPoly (smul (fieldOps K) ((fieldOps K).inv (lcoef (fieldOps K) P)) (norm (fieldOps K) P)) =
+      C (toPoly P).leadingCoeff⁻¹ * toPoly P := by
+    rw [toPoly_smul, toPoly_norm, lcoef_eq]; rfl
+  refine ⟨_, ?_, hA⟩
+  unfold sqrfree
+  have hN0 : Nfact ≠ 0 := by omega
+  simp only [hN0, if_false]
+  -- the monic associate is separable, so the model gcd with its derivative is a unit
+  have hsepA : IsCoprime (toPoly (smul (fieldOps K) ((fieldOps K).inv (lcoef (fieldOps K) P)) (norm (fieldOps K) P)))
+      (toPoly (diff (fieldOps K) (smul (fieldOps K) ((fieldOps K).inv (lcoef (fieldOps K) P)) (norm (fieldOps K) P)))) := by
+    rw [toPoly_diff, hA]
+    have hu : IsUnit (C (toPoly P).leadingCoeff⁻¹ : K[X]) := isUnit_C.2 (isUnit_iff_ne_zero.2 hlc)
+    have : (C (toPoly P).leadingCoeff⁻¹ * toPoly P).Separable := by
+      rw [mul_comm]; exact (Polynomial.Separable.mul_unit hsep hu)
+    exact this
+  have hu := (pgcd_unit_iff _ _).2 hsepA
+  obtain ⟨d, hd, hdD⟩ := Polynomial.isUnit_iff.1 hu
+  have hd0 : d ≠ 0 := hd.ne_zero
+  have hC : toPoly (smul (fieldOps K) ((fieldOps K).inv (lcoef (fieldOps K)
+      (pgcd (fieldOps K) (smul (fieldOps K) ((fieldOps K).inv (lcoef (fieldOps K) P)) (norm (fieldOps K) P))
+        (diff (fieldOps K) (smul (fieldOps K) ((fieldOps K).inv (lcoef (fieldOps K) P)) (norm (fieldOps K) P))))))
+      (norm (fieldOps K) (pgcd (fieldOps K) (smul (fieldOps K) ((fieldOps K).inv (lcoef (fieldOps K) P)) (norm (fieldOps K) P))
+        (diff (fieldOps K) (smul (fieldOps K) ((fieldOps K).inv (lcoef (fieldOps K) P)) (norm (fieldOps K) P)))))) =
+      toPoly ([1] : List K) := by
+    rw [toPoly_smul, toPoly_norm, lcoef_eq, ← hdD]
+    simp only [fo_inv, leadingCoeff_C, toPoly_cons, toPoly_nil, mul_zero, add_zero]
+    rw [← C_mul, inv_mul_cancel₀ hd0]
+  have hnorm := (norm_eq_iff _ _).2 hC
+  have h1 : norm (fieldOps K) ([1] : List K) = [(fieldOps K).one] := by
+    simp [Givaro.Model.PolyFactor.norm]
+  rw [h1] at hnorm
+  simp only [hnorm, if_true]
+
+end ListLevel
+
+/-- Certificate of a square-free decomposition, at the Mathlib level: parts square-free and pairwise coprime with
+    `∏ gᵉ = c·P`, `c ≠ 0`.  Then every irreducible divisor of `P` divides exactly the part that carries its exact
+    multiplicity: no factor is lost and the exponent attached to a part is the multiplicity of each of its factors.
+    (`sqrfree` returns `Fact[i]` with exponent `i+1`: take `L = [(Fact[0],1), (Fact[1],2), …]`.) -/
+theorem sqrfree_certificate {K : Type*} [Field K] (P : K[X]) (L : List (K[X] × ℕ)) (c : K) (hc : c ≠ 0)
+    (hsq : ∀ ge ∈ L, Squarefree ge.1)
+    (hcop : L.Pairwise (fun a b => IsCoprime a.1 b.1))
+    (hprod : (L.map (fun ge => ge.1 ^ ge.2)).prod = C c * P) :
+    (∀ f, Irreducible f → f ∣ P → ∃ ge ∈ L, f ∣ ge.1 ∧ 1 ≤ ge.2) ∧
+    (∀ f, Irreducible f → ∀ ge ∈ L, f ∣ ge.1 → f ^ ge.2 ∣ P ∧ ¬ f ^ (ge.2 + 1) ∣ P) := by
+  have hcu : IsUnit (C c : K[X]) := isUnit_C.2 (isUnit_iff_ne_zero.2 hc)
+  constructor
+  · intro f hf hP
+    have hp : Prime f := hf.prime
+    have : f ∣ (L.map (fun ge => ge.1 ^ ge.2)).prod := by rw [hprod]; exact hP.mul_left _
+    obtain ⟨a, ha, hfa⟩ := (Prime.dvd_prod_iff hp).1 this
+    obtain ⟨ge, hge, rfl⟩ := List.mem_map.1 ha
+    refine ⟨ge, hge, hp.dvd_of_dvd_pow hfa, ?_⟩
+    by_contra h0
+    have : ge.2 = 0 := by omega
+    rw [this, pow_zero] at hfa
+    exact hf.not_isUnit (isUnit_of_dvd_one hfa)
+  · intro f hf ge hge hfg
+    have hp : Prime f := hf.prime
+    obtain ⟨l1, l2, rfl⟩ := List.append_of_mem hge
+    have hsplit : (List.map (fun ge => ge.1 ^ ge.2) (l1 ++ ge :: l2)).prod =
+        ge.1 ^ ge.2 * ((l1.map (fun ge => ge.1 ^ ge.2)).prod * (l2.map (fun ge => ge.1 ^ ge.2)).prod) := by
+      simp only [List.map_append, List.map_cons, List.prod_append, List.prod_cons]; ring
+    rw [hsplit] at hprod
+    constructor
+    · have h1 : f ^ ge.2 ∣ ge.1 ^ ge.2 := pow_dvd_pow_of_dvd hfg _
+      have h2 : f ^ ge.2 ∣ C c * P := by rw [← hprod]; exact h1.mul_right _
+      exact (hcu.dvd_mul_left).1 h2
+    · intro hdvd
+      rw [List.pairwise_append] at hcop
+      obtain ⟨-, hcop2, hcop12⟩ := hcop
+      rw [List.pairwise_cons] at hcop2
+      have hrest : ¬ f ∣ (l1.map (fun ge => ge.1 ^ ge.2)).prod * (l2.map (fun ge => ge.1 ^ ge.2)).prod := by
+        intro h2
+        rcases hp.dvd_or_dvd h2 with h3 | h3
+        · obtain ⟨a, ha, hfa⟩ := (Prime.dvd_prod_iff hp).1 h3
+          obtain ⟨ge', hge', rfl⟩ := List.mem_map.1 ha
+          have hco : IsCoprime ge'.1 ge.1 := hcop12 ge' hge' ge (by simp)
+          exact hf.not_isUnit (hco.isUnit_of_dvd' (hp.dvd_of_dvd_pow hfa) hfg)
+        · obtain ⟨a, ha, hfa⟩ := (Prime.dvd_prod_iff hp).1 h3
+          obtain ⟨ge', hge', rfl⟩ := List.mem_map.1 ha
+          have hco : IsCoprime ge.1 ge'.1 := hcop2.1 ge' hge'
+          exact hf.not_isUnit (hco.isUnit_of_dvd' hfg (hp.dvd_of_dvd_pow hfa))
+      have h1 : f ^ (ge.2 + 1) ∣ ge.1 ^ ge.2 * ((l1.map (fun ge => ge.1 ^ ge.2)).prod * (l2.map (fun ge => ge.1 ^ ge.2)).prod) := by
+        rw [hprod]; exact hdvd.mul_left _
+      have h2 : f ^ (ge.2 + 1) ∣ ge.1 ^ ge.2 := hp.pow_dvd_of_dvd_mul_right _ hrest h1
+      obtain ⟨m, hm⟩ := hfg
+      have hfm : ¬ f ∣ m := by
+        rintro ⟨m', rfl⟩
+        have hsqf := hsq ge (by simp)
+        exact hf.not_isUnit (hsqf f ⟨m', by rw [hm]; ring⟩)
+      rw [hm, mul_pow, pow_succ] at h2
+      have h3 : f ∣ m ^ ge.2 := (mul_dvd_mul_iff_left (pow_ne_zero _ hf.ne_zero)).1 h2
+      exact hfm (hp.dvd_of_dvd_pow h3)
+
+/-- `checkSqrfree` = true yields exactly the hypotheses of `sqrfree_certificate` for the denoted polynomials, with the
+    exponent `i+1` attached to the `i`-th part. -/
+theorem sqrfree_checker_sound {K : Type} [Field K] [DecidableEq K] (P : Poly K) (G : List (Poly K))
+    (h : Givaro.Spec.PolyFactor.checkSqrfree (Givaro.Lemmas.PolyFactor.fieldOps K) P G = true) :
+    Givaro.Lemmas.PolyFactor.toPoly P ≠ 0 ∧ ∃ c : K, c ≠ 0 ∧
+      (∀ ge ∈ (Givaro.Spec.PolyFactor.indexed G 1).map (fun gi => (Givaro.Lemmas.PolyFactor.toPoly gi.1, gi.2)), Squarefree ge.1) ∧
+      ((Givaro.Spec.PolyFactor.indexed G 1).map (fun gi => (Givaro.Lemmas.PolyFactor.toPoly gi.1, gi.2))).Pairwise
+        (fun a b => IsCoprime a.1 b.1) ∧
+      (((Givaro.Spec.PolyFactor.indexed G 1).map (fun gi => (Givaro.Lemmas.PolyFactor.toPoly gi.1, gi.2))).map
+        (fun ge => ge.1 ^ ge.2)).prod = C c * Givaro.Lemmas.PolyFactor.toPoly P := by
+  open Givaro.Lemmas.PolyFactor Givaro.Spec.PolyFactor in
+  unfold checkSqrfree at h
+  simp only [Bool.and_eq_true, decide_eq_true_eq, List.all_eq_true, ne_eq] at h
+  obtain ⟨⟨⟨hP, hall⟩, hpw⟩, hass⟩ := h
+  have hP0 : toPoly P ≠ 0 := fun h0 => hP ((norm_eq_nil_iff P).2 h0)
+  have hne : ∀ g ∈ G, toPoly g ≠ 0 := fun g hg h0 => (hall g hg).1 ((norm_eq_nil_iff g).2 h0)
+  obtain ⟨-, -, u, hu⟩ := (associatedB_iff _ _).1 hass
+  obtain ⟨r, hr, hru⟩ := Polynomial.isUnit_iff.1 u.isUnit
+  have hr0 : r ≠ 0 := hr.ne_zero
+  have hfst : ((indexed G 1).map (fun gi => (toPoly gi.1, gi.2))).map Prod.fst = G.map toPoly := by
+    rw [List.map_map]
+    have : (Prod.fst ∘ fun gi : Poly K × ℕ => (toPoly gi.1, gi.2)) = toPoly ∘ Prod.fst := rfl
+    rw [this, ← List.map_map, indexed_fst]
+  refine ⟨hP0, r⁻¹, inv_ne_zero hr0, ?_, ?_, ?_⟩
+  · intro ge hge
+    have : ge.1 ∈ G.map toPoly := by rw [← hfst]; exact List.mem_map.2 ⟨ge, hge, rfl⟩
+    obtain ⟨g, hg, hge1⟩ := List.mem_map.1 this
+    rw [← hge1]
+    exact squarefreeB_sound g (hne g hg) (hall g hg).2
+  · have h1 : (G.map toPoly).Pairwise IsCoprime := by
+      rw [List.pairwise_map]
+      rw [pairwiseB_iff] at hpw
+      refine List.Pairwise.imp_of_mem ?_ hpw
+      intro a b ha hb hab
+      exact (coprimeB_iff a b (Or.inl (hne a ha))).1 hab
+    rw [← hfst, List.pairwise_map] at h1
+    exact h1
+  · rw [List.map_map]
+    have h1 := toPoly_prodPow (indexed G 1)
+    have h2 : ((indexed G 1).map ((fun ge : K[X] × ℕ => ge.1 ^ ge.2) ∘ fun gi => (toPoly gi.1, gi.2))) =
+        (indexed G 1).map (fun ge => toPoly ge.1 ^ ge.2) := rfl
+    rw [h2, ← h1, ← hu, ← hru]
+    rw [mul_comm (toPoly (prodPow (fieldOps K) (indexed G 1))) (C r), ← mul_assoc, ← C_mul, inv_mul_cancel₀ hr0, C_1,
+      one_mul]
 
 /-! ### known finding C09-yun-charp: the square-free decomposition in characteristic p
 
